@@ -1216,3 +1216,25 @@ def commute(cls_short, m, slot, writers):
                         return (f"on the {blabel} builder, .{m}{a1!r}.{wname}{a2!r} gives {o1[1]!r} but "
                                 f".{wname}{a2!r}.{m}{a1!r} gives {o2[1]!r}")
     return None
+
+
+def alias_reference(cls_short=None):
+    """C12: GROUP BY / ORDER BY refer to an alias only when the select list of the same statement defines it"""
+    import re
+    from . import QUERY_CLASSES, Table, fn
+    t = Table("abc")
+    for qc in QUERY_CLASSES:
+        x = t.foo.as_("x")
+        progs = [("alias dropped by a later star", lambda: qc.from_(t).select(x, t.star).orderby(x)),
+                 ("alias dropped by a later star (group)", lambda: qc.from_(t).select(x, t.star).groupby(x)),
+                 ("alias never selected", lambda: qc.from_(t).select(t.bar).orderby(x)),
+                 ("alias never selected (group)", lambda: qc.from_(t).select(t.bar).groupby(x)),
+                 ("function alias never selected", lambda: qc.from_(t).select(t.bar).orderby(fn.Lower(t.foo).as_("lo")))]
+        for label, mk in progs:
+            sql = str(mk())
+            head, _, tail = sql.partition(" FROM ")
+            for m in re.finditer(r'(?:ORDER BY|GROUP BY) ["`]?(\w+)["`]?(?:$|[ ,])', tail):
+                nm = m.group(1)
+                if nm in ("x", "lo") and not re.search(r'["`]' + nm + r'["`]', head):
+                    return f"{qc.__name__}: {label}: {sql!r} refers to the alias {nm!r} which the select list does not define"
+    return None
